@@ -1,7 +1,10 @@
 #!/usr/bin/env python3
 # Probe: NaiveDate day-count arithmetic unit, real text from /repo/src/naive/date/mod.rs
 import sys
-sys.path.insert(0, '/tmp/vprobe')
+import os
+HERE = os.path.dirname(os.path.abspath(__file__))
+OUT = os.environ.get('PROBE_OUT', '/var/tmp')
+sys.path.insert(0, HERE)
 from xprobe import *
 
 D = Src('/repo/src/naive/date/mod.rs')
@@ -212,5 +215,5 @@ sig, body = D.fn('cycle_to_yo'); free.append(emit_fn(sig, body, requires="cycle 
     hints=[("let delta = YEAR_DELTAS", "    proof { table_ok(); assert(year_mod_400 <= 400); if year_mod_400 > 0 { lb_step(year_mod_400 as int - 1); } if year_mod_400 < 400 { lb_step(year_mod_400 as int); } }")]))
 
 out = PRE + consts + TABLE + '\n'.join(free) + STUBS + '\n'.join('    ' + f.replace('\n', '\n') for f in fns) + '\n}\n} // verus!\nfn main() {}\n'
-open('/tmp/vprobe/date_unit.rs', 'w').write(out)
+open(os.path.join(OUT, 'date_unit.rs'), 'w').write(out)
 print('ok', len(fns), 'methods')
